@@ -10,6 +10,7 @@
   op "trace": replay of a recorded event trace on the protocol LTS (Grip.C12.LTS), see below.
 -/
 import Grip.Drv.Common
+import Grip.Drv.C13
 import Grip.Model.C12Prog
 -- (LTS import added below)
 
@@ -242,6 +243,9 @@ def step (_ : Unit) (j : Json) : Unit × Json :=
   | some "loop" =>
     let spec := loopStep j
     if isNested ((arr? j "stmts").getD []) then ((), nestedStep j spec) else ((), spec)
+  -- mode "queue": the queue between jump and mark on its own (engine/queue, the one unbounded element
+  -- of the cycle), one element at a time and under the stall patterns; the MODEL is C13's
+  | some "queue" => Grip.Drv.C13.step () j
   | _ => ((), Drv.bad "unknown op")
 
 def main : IO Unit := Drv.runLoop () step
